@@ -36,6 +36,32 @@ def close(a, b, scale, tol=TOL):
     return bool(np.abs(a - b).max(initial=0.0) <= tol * max(scale, 1e-300))
 
 
+def regenerate_units_table(run):
+    """Gen/Units.lean (T-units, tools/units2lean.py of C17) is imported by Props/C20 for the unit monomials: regenerate it from the
+    working tree into a scratch file and replace the shared file only if the content differs."""
+    import tempfile
+
+    out = os.path.join(common.LEAN_DIR, "PhononModel", "Gen", "Units.lean")
+    fd, tmp = tempfile.mkstemp(suffix=".lean", dir=os.path.join(common.VERIF, ".build"))
+    os.close(fd)
+    try:
+        r = subprocess.run([sys.executable, os.path.join(common.VERIF, "tools", "units2lean.py"), common.REPO, tmp], capture_output=True, text=True, timeout=120)
+        if r.returncode != 0:
+            run.broke("proof", "translator tools/units2lean.py failed: phonopy/units.py left the translatable subset", (r.stdout + r.stderr)[-1500:])
+            return
+        new = open(tmp).read()
+        try:
+            old = open(out).read()
+        except OSError:
+            old = None
+        if new != old:
+            os.replace(tmp, out)
+            tmp = None
+    finally:
+        if tmp and os.path.exists(tmp):
+            os.remove(tmp)
+
+
 def regenerate(run):
     r = subprocess.run([sys.executable, os.path.join(common.VERIF, "tools", "cexpr2lean.py"), "--repo", common.REPO, "--only", "units"],
                        capture_output=True, text=True, timeout=120)
@@ -115,7 +141,9 @@ def gen_qha_case(rng, thorough):
     q = [rng.uniform(20, 70), rng.uniform(-0.5, 0.5), rng.uniform(-0.02, 0.02), rng.uniform(-1e-3, 1e-3), rng.uniform(-1e-5, 1e-5)]
     cv = np.array([[(t / (t + 150.0)) * sum(qk * (v - vm) ** k for k, qk in enumerate(q)) for v in vols] for t in temps])
     ent = np.array([[(t / (t + 90.0)) * (1.3 * q[0] + 0.4 * (v - vm) + 0.01 * (v - vm) ** 2) for v in vols] for t in temps])
-    return dict(kind=kind, temps=temps, pars=pars, vols=vols, pressure=pressure, shape=shape, el=el, tmax=tmax, tmax_sel=tmax_sel, cv=cv, ent=ent)
+    dV0dT = V00 * (a1 + 2 * a2 * tp)
+    return dict(kind=kind, temps=temps, pars=pars, vols=vols, pressure=pressure, shape=shape, el=el, tmax=tmax, tmax_sel=tmax_sel, cv=cv, ent=ent,
+                q=q, vm=vm, dV0dT=dV0dT)
 
 
 def build_inputs(c, units):
@@ -127,15 +155,43 @@ def build_inputs(c, units):
     return (tot - el - pv) * units.EvTokJmol
 
 
-def run_qha(c, fph, pressure="case", el=None, tmax="case"):
+def caller_arrays(c, fph, el=None, as_view=False):
+    """the caller's own float64 ndarrays (optionally strided views into larger buffers), handed to phonopy WITHOUT copying"""
+    src = dict(volumes=c["vols"], electronic_energies=(c["el"] if el is None else el), temperatures=c["temps"], free_energy=fph, cv=c["cv"], entropy=c["ent"])
+    out = {}
+    for k, a in src.items():
+        a = np.array(a, dtype="double")
+        if as_view:
+            big = np.full(tuple(n + 2 for n in a.shape), 12345.678)
+            sl = tuple(slice(1, -1) for _ in a.shape)
+            big[sl] = a
+            a = big[sl]
+        out[k] = a
+    return out
+
+
+def snapshot(arrs):
+    return {k: np.array(v, copy=True).tobytes() for k, v in arrs.items()}
+
+
+def run_qha(c, fph, pressure="case", el=None, tmax="case", arrays=None):
     from phonopy import PhonopyQHA
 
+    a = caller_arrays(c, fph, el=el) if arrays is None else arrays
     with warnings.catch_warnings():
         warnings.simplefilter("ignore", DeprecationWarning)
-        return PhonopyQHA(volumes=c["vols"].copy(), electronic_energies=(c["el"] if el is None else el).copy(), temperatures=c["temps"].copy(),
-                          free_energy=fph.copy(), cv=c["cv"].copy(), entropy=c["ent"].copy(),
+        return PhonopyQHA(volumes=a["volumes"], electronic_energies=a["electronic_energies"], temperatures=a["temperatures"],
+                          free_energy=a["free_energy"], cv=a["cv"], entropy=a["entropy"],
                           pressure=(c["pressure"] if pressure == "case" else pressure), eos=c["kind"],
                           t_max=(c["tmax"] if tmax == "case" else tmax), verbose=False)
+
+
+def check_untouched(run, site, before, arrs, info, when):
+    after = snapshot(arrs)
+    changed = [k for k in before if before[k] != after[k]]
+    if changed:
+        run.violation(site, "caller-array-modified", "%s modified the caller's own array(s) %s (%s)" % (site, ", ".join(changed), when), info)
+    return not changed
 
 
 def main(run):
@@ -150,6 +206,7 @@ def main(run):
 
     thorough = run.tier == "thorough"
     regenerate(run)
+    regenerate_units_table(run)
     run.proof_step(leancheck=thorough)
     run.cov["rule"] = (
         "eos: vinet / birch_murnaghan / murnaghan / an unknown name (falls through to vinet), V0 in [12,180] A^3, B0 in [0.15,1.8] eV/A^3, "
@@ -172,7 +229,7 @@ def main(run):
     lines, meta = ["consts"], [("consts", None)]
 
     # ---------------------------------------------------------------- EOS functions
-    neos = 240 if thorough else 80
+    neos = 8000 if thorough else 80
     for n in range(neos):
         name = (KINDS + ["no_such_eos"])[n % 4]
         E0, B0, Bp, V0 = rand_params(rng)
@@ -209,12 +266,15 @@ def main(run):
         run.count("oracle-eos", section="oracle")
 
     # ---------------------------------------------------------------- QHA
-    nq = 160 if thorough else 40
+    nq = 8000 if thorough else 40
     qcases = []
     for _ in range(nq):
         c = gen_qha_case(rng, thorough)
         fph = build_inputs(c, units)
-        qha = run_qha(c, fph)
+        c["as_view"] = rng.random() < 0.4
+        arrs = caller_arrays(c, fph, as_view=c["as_view"])
+        snap = snapshot(arrs)
+        qha = run_qha(c, fph, arrays=arrs)
         Q = qha._qha
         nt, nv = len(c["temps"]), len(c["vols"])
         hasP = c["pressure"] is not None
@@ -230,10 +290,40 @@ def main(run):
         lines.append("fd %d %s %d %s %d %s %s %s %s" % (int(c["tmax"] is not None), fb(c["tmax"] if c["tmax"] is not None else 0.0), nt, fbs(c["temps"]),
                                                        num, fbs(Q._equiv_volumes), fbs(Q._equiv_energies), fbs(Q._equiv_bulk_modulus), fbs(cvat)))
         meta.append(("fd", (c, qha, num)))
+        # heat_capacity_P_polyfit: the quartic fits (np.polyfit) are inputs of the model as coefficient rows
+        cvc = np.zeros((num, 5))
+        scf = np.zeros((num, 5))
+        for j in range(1, num - 1):
+            cvc[j] = Q._volume_cv_parameters[j - 1]
+            scf[j] = Q._volume_entropy_parameters[j - 1]
+        lines.append("cpfit %d %s %s %s %s" % (num, fbs(np.array(Q._temperatures)[:num]), fbs(Q._equiv_volumes), fbs(cvc), fbs(scf)))
+        meta.append(("cpfit", (c, qha, num)))
+        lines.append("bulkgpa %d %s" % (num, fbs(Q._equiv_parameters[:, 1])))
+        meta.append(("bulkgpa", (c, np.array(Q._equiv_bulk_modulus))))
         qcases.append((c, fph, qha))
         info = dict(eos=c["kind"], nt=nt, nv=nv, pressure=c["pressure"], el_shape=c["shape"], t_max=c["tmax"], t_max_kind=c["tmax_sel"],
                     temperatures=c["temps"].tolist(), volumes=c["vols"].tolist())
         c["info"] = info
+        run.count("caller arrays: " + ("strided views" if c["as_view"] else "own ndarrays"))
+        # ---- oracle: the analysis copies its inputs — caller arrays untouched, and a second analysis on the SAME arrays gives the same result
+        untouched = check_untouched(run, "PhonopyQHA", snap, arrs, info, "after construction and run()")
+        from phonopy.qha.core import QHA as _QHA, BulkModulus as _BM
+
+        q2 = _QHA(arrs["volumes"], arrs["electronic_energies"], arrs["temperatures"], arrs["cv"], arrs["entropy"], arrs["free_energy"],
+                  pressure=c["pressure"], eos=c["kind"], t_max=c["tmax"])
+        check_untouched(run, "QHA.__init__", snap, arrs, info, "after construction")
+        q2.run()
+        check_untouched(run, "QHA.run", snap, arrs, info, "after run()")
+        _BM(arrs["volumes"], arrs["electronic_energies"], pressure=c["pressure"], eos=c["kind"])
+        check_untouched(run, "BulkModulus.__init__", snap, arrs, info, "after construction")
+        again = run_qha(c, fph, arrays=arrs)
+        for nm in ("volume_temperature", "gibbs_temperature", "bulk_modulus_temperature", "thermal_expansion", "helmholtz_volume"):
+            a1, a2, a3 = np.array(getattr(qha, nm)), np.array(getattr(again, nm)), np.array(getattr(q2, nm))
+            if not close(a2, a1, float(np.abs(a1).max()), 1e-10) or not close(a3, a1, float(np.abs(a1).max()), 1e-10):
+                run.violation("PhonopyQHA", "repeated-analysis" + ("-pressure" if c["pressure"] else ""),
+                              "%s of a second / third analysis on the same input arrays differs from the first by %.3g" % (nm, max(np.abs(a2 - a1).max(), np.abs(a3 - a1).max())), info)
+                break
+        run.count("oracle-inputs-preserved", section="oracle")
         run.case(("qha", c["kind"], c["temps"].tobytes(), c["vols"].tobytes(), c["pressure"], c["shape"], c["tmax"]), nontrivial=num >= 3)
         run.count("qha " + c["kind"])
         run.count("pressure " + ("None" if c["pressure"] is None else "0" if c["pressure"] == 0 else "+" if c["pressure"] > 0 else "-"))
@@ -268,14 +358,38 @@ def main(run):
         cptol = 4e-9 * max(1.0, float(np.abs(Ek).max())) * units.EvTokJmol * 1000 * float(T[:L + 1].max()) / dts ** 2
         if len(cp) != L or np.abs(cp - np.array(cp_k)).max() > cptol:
             run.violation(site, "heat-capacity-P", "C_P differs from -T d2G/dT2 of the known G(T) by %.3g (tolerance %.3g)" % (np.abs(cp - np.array(cp_k)).max(), cptol), info)
+        # C_P (polyfit) = C_V(V_i) + T_i (dV/dT)(dS/dV) with the KNOWN quartics and the known quadratic V(T)
+        Qo = qha._qha
+        cpp = np.array(Qo._cp_polyfit[:L], dtype="double")
+        cp_known = [0.0]
+        for i in range(1, L):
+            t, vv = T[i], Vk[i]
+            cv_k = (t / (t + 150.0)) * sum(qk * (vv - c["vm"]) ** k for k, qk in enumerate(c["q"]))
+            dsdv_k = (t / (t + 90.0)) * (0.4 + 0.02 * (vv - c["vm"]))
+            cp_known.append(cv_k + t * c["dV0dT"][i] * dsdv_k)
+        cp_known = np.array(cp_known)
+        if len(cpp) != L or np.abs(cpp - cp_known).max() > 1e-6 * max(1.0, float(np.abs(cp_known).max())):
+            run.violation(site, "cp-polyfit", "heat_capacity_P_polyfit differs from C_V(V) + T (dV/dT)(dS/dV) of the known functions by %.3g" % np.abs(cpp - cp_known).max(), info)
+        # Grueneisen parameter from the known functions: beta K_T / (C_V/V in GPa/K)
+        gam = np.array(qha.gruneisen_temperature, dtype="double")
+        g_known = [0.0]
+        for i in range(1, L):
+            t, vv = T[i], Vk[i]
+            cvv = (t / (t + 150.0)) * sum(qk * (vv - c["vm"]) ** k for k, qk in enumerate(c["q"])) / vv / 1000 / units.EvTokJmol * units.EVAngstromToGPa
+            g_known.append(0.0 if cvv < 1e-10 else beta_k[i] * Bk[i] / cvv)
+        g_known = np.array(g_known)
+        if len(gam) != L or np.abs(gam - g_known).max() > 1e-6 * max(1e-3, float(np.abs(g_known).max())) + 4e-9 / dts * float(np.abs(Bk).max()) / max(1e-12, float(np.abs(cp_known[1:]).min() if L > 1 else 1.0)):
+            run.violation(site, "gruneisen", "Grueneisen parameter differs from beta K_T V / C_V of the known functions by %.3g" % np.abs(gam - g_known).max(), info)
         run.count("oracle-recovery", section="oracle")
 
     # physical sign of the pressure term, (V) vs (T,V) with identical rows, t_max independence of the common prefix
-    for (c, fph, qha) in qcases[: (40 if thorough else 10)]:
-        base = run_qha(c, fph, pressure=None, tmax=None)
-        comp = run_qha(c, fph, pressure=3.0, tmax=None)
+    for (c, fph, qha) in qcases[: (1200 if thorough else 10)]:
+        c0 = dict(c, pressure=None)
+        fph0 = build_inputs(c0, units)  # total energy is the EOS itself when no pressure is applied
+        base = run_qha(c0, fph0, pressure=None, tmax=None)
+        comp = run_qha(c0, fph0, pressure=1.0, tmax=None)
         if not np.all(np.array(comp.volume_temperature) < np.array(base.volume_temperature)):
-            run.violation("PhonopyQHA", "pressure-sign", "+3 GPa does not reduce the equilibrium volume at every temperature", c["info"])
+            run.violation("PhonopyQHA", "pressure-sign", "+1 GPa does not reduce the equilibrium volume at every temperature", c["info"])
         if c["shape"] == "V":
             tiled = np.tile(c["el"], (len(c["temps"]), 1))
             other = run_qha(c, fph, el=tiled)
@@ -326,6 +440,39 @@ def main(run):
             if not close(impl, model[: impl.shape[0]], float(np.abs(model).max())):
                 run.broke("correspondence", "free energies F_ph/EvTokJmol + E_el + PV: implementation differs from model by %.3g" % np.abs(impl - model[: impl.shape[0]]).max(), c["info"])
             run.count("free-energy", section="correspondence")
+            continue
+        if kind == "bulkgpa":
+            c, impl = info
+            model = np.array([bf(t) for t in line.split()])
+            ncmp += len(impl)
+            if not close(impl, model, float(np.abs(model).max())):
+                run.broke("correspondence", "bulk modulus in GPa differs from B0*EVAngstromToGPa by %.3g" % np.abs(impl - model).max(), c["info"])
+            continue
+        if kind == "cpfit":
+            c, qha, num = info
+            toks = line.split()
+            mlen = int(toks[0])
+            arr = np.array([bf(t) for t in toks[1:]]).reshape(2, mlen)
+            Q = qha._qha
+            if c["shape"] == "TV":
+                try:
+                    qha.heat_capacity_P_polyfit
+                    run.violation("PhonopyQHA.heat_capacity_P_polyfit", "no-error-for-TV", "no NotImplementedError for electronic energies of shape (T,V)", c["info"])
+                except NotImplementedError:
+                    pass
+                impl_cp = np.array(Q._cp_polyfit[:mlen], dtype="double")
+            else:
+                impl_cp = np.array(qha.heat_capacity_P_polyfit, dtype="double")
+            impl_ds = np.array(Q._dsdv[:mlen], dtype="double")
+            ncmp += 2 * mlen
+            if len(impl_cp) != mlen:
+                run.broke("correspondence", "heat_capacity_P_polyfit length %d, model %d" % (len(impl_cp), mlen), c["info"])
+                continue
+            # dV/dT comes from np.polyfit on three points (conditioning (T/dT)^2): allowance 1e-6 of the T*dvdt*dsdv term
+            sc_cp = float(np.abs(arr[0]).max()) + float(np.abs(np.array(c["temps"][:mlen]) * arr[1]).max()) * 1e3
+            if not close(impl_cp, arr[0], sc_cp, 1e-6) or not close(impl_ds, arr[1], float(np.abs(arr[1]).max())):
+                run.broke("correspondence", "heat_capacity_P_polyfit / dsdv differ from model by %.3g / %.3g" % (np.abs(impl_cp - arr[0]).max(), np.abs(impl_ds - arr[1]).max()), c["info"])
+            run.count("cp-polyfit", section="correspondence")
             continue
         if kind == "fd":
             c, qha, num = info
